@@ -163,6 +163,18 @@ CLAIMED = {
         design_ref='DESIGN.md 4 C14',
         note=TRUST + 'spsolve by contract, scipy.sparse by a dense stand-in. NOT decided: exactness for manufactured solutions beyond "same quadrature", '
                      'solveEquationForFunction, degrees 4-5, FFT stages. The solver uses the first cell\'s half width for every cell (uniform radial breaks assumed by the code; the oracle mirrors this).'),
+    'C15': dict(
+        category='proof',
+        technique='symbolic execution of the real quasi-neutrality pipeline (getModes, solveEquation, findPotential, layout changes) on a symbolic real density with the FFT replaced by the exact DFT for ntheta=4; z3 linear identities against an independent mode-by-mode reference',
+        text='PARTIAL, in exact arithmetic and for ntheta = 4 (exact twiddle factors): for all real densities the potential produced '
+             'by density -> modes -> per-mode solve -> inverse transform equals the one computed mode by mode by an independent '
+             'implementation (FFT-ordered mode numbers, m^2, inner Neumann condition for m=0 only, chi convention for the m=0 mode, '
+             'adiabatic response on all other modes, kinetic electrons without it), on every rank of the listed process grids, and its '
+             'imaginary part is identically zero. NOT decided: that fft/ifft round-trip to the identity (the DFT definition is the '
+             'contract used), other theta counts, the equilibrium as a fixed point of the complete time step.',
+        design_ref='DESIGN.md 5 (C15)',
+        note=TRUST + 'scipy.fftpack.fft/ifft by their definition (contract); spsolve exact on the concrete rational systems; rational n0, Te profiles '
+                     'passed through the constructor keywords.'),
     'C16': dict(
         category='proof',
         technique='symbolic execution of the real DensityFinder / poisson_tools on every simulated rank with the whole distribution function symbolic (z3 Reals); linear real arithmetic queries',
@@ -224,9 +236,6 @@ CLAIMED = {
 }
 
 NOT_APPLICABLE = {
-    'C15': 'substance is scipy.fftpack fft/ifft and spsolve (compiled FFI code, transcendental twiddle factors): no exact '
-           'SMT encoding; a contract stub would make the round-trip claims true by assumption. Index arithmetic parts are '
-           'covered under C14/C03.',
 }
 
 ALL = ['C%02d' % i for i in range(1, 21)]
